@@ -68,6 +68,12 @@ func (l *Lexer) lexToSpaceTokenEat(currentChar rune) strings.Builder {
 			return buf
 		}
 
+		if char == 0 && l.reader.IsEOF() {
+			l.reader.Unread()
+
+			return buf
+		}
+
 		buf.WriteRune(char)
 	}
 }
@@ -182,7 +188,8 @@ func (l *Lexer) lexIdentifier(currentChar rune) {
 		}
 
 		if !isIdentifierChar(char) {
-			if strings.Contains(buf.String(), ":\"") && char != '\n' && char != '"' {
+			isEOF := char == 0 && l.reader.IsEOF()
+			if strings.Contains(buf.String(), ":\"") && char != '\n' && char != '"' && !isEOF {
 				buf.WriteRune(char)
 				continue
 			}
@@ -210,6 +217,10 @@ func (l *Lexer) lexString(start rune) {
 		char := l.reader.Read()
 
 		if char == start {
+			break
+		}
+
+		if char == 0 && l.reader.IsEOF() {
 			break
 		}
 
@@ -250,6 +261,10 @@ func (l *Lexer) skipLineComment() {
 		char = l.reader.Read()
 
 		if char == '\n' {
+			break
+		}
+
+		if char == 0 && l.reader.IsEOF() {
 			break
 		}
 
